@@ -8,6 +8,8 @@ time menu; all choice vectors are explored.
 """
 from __future__ import annotations
 
+import contextlib
+
 import math
 from typing import Any, Dict, List
 
@@ -424,6 +426,151 @@ def run_per_request(ctl: explorer.Ctl, cfg: Dict[str, Any]) -> Dict[str, Any]:
     return {"outcome": "/".join(summary), "violations": viol}
 
 
+RUN_PRM = "vf.checks.c18:run_per_request_multi"
+
+
+def run_per_request_multi(ctl: explorer.Ctl, cfg: Dict[str, Any]) -> Dict[str, Any]:
+    """Per-request streams with (a) several connections alive at once whose callers use the SAME ids and
+    (b) callers that reuse their id for the next request as soon as the previous answer is in their hands.
+    cfg: conns (1|2), ids [keys of PR_IDS], rounds, reg (permutation index of the caller start order)."""
+    import asyncio
+    import itertools
+    import json
+
+    import anyio as _anyio
+    from chuk_mcp.protocol.messages.json_rpc_message import JSONRPCRequest
+    from chuk_mcp.transports.stdio.stdio_client import StdioClient
+
+    from .. import seams
+
+    ids = [PR_IDS[k] for k in cfg["ids"]]
+    nc = cfg["conns"]
+    rounds = cfg["rounds"]
+    pairs = [(c, i) for c in range(nc) for i in range(len(ids))]
+    loop = new_loop(horizon=30)
+    procs = [seams.FakeProcess() for _ in range(nc)]
+    seen: List[List[Any]] = [[] for _ in range(nc)]
+    bufs = [b"" for _ in range(nc)]
+    st = {"round_answered": 0}
+    results: Dict[tuple, List[Any]] = {p: [] for p in pairs}
+    main_streams: List[List[Any]] = [[] for _ in range(nc)]
+
+    def make_on_stdin(c):
+        def on_stdin(data: bytes):
+            bufs[c] += data
+            while b"\n" in bufs[c]:
+                line, bufs[c] = bufs[c].split(b"\n", 1)
+                try:
+                    d = json.loads(line.decode("utf-8"))
+                except Exception:  # noqa: BLE001
+                    continue
+                if d.get("method") == "tools/call":
+                    seen[c].append(d.get("id"))
+        return on_stdin
+
+    for c in range(nc):
+        procs[c].on_stdin = make_on_stdin(c)
+    perms = list(itertools.permutations(range(len(pairs))))
+
+    def idle(lp):
+        r = st["round_answered"]
+        if r >= rounds or any(len(seen[c]) < (r + 1) * len(ids) for c in range(nc)):
+            return
+        st["round_answered"] = r + 1
+        order = perms[ctl.choose(len(perms), f"answer-order-round{r}")]
+        for pi in order:
+            c, i = pairs[pi]
+            procs[c].stdout.feed((json.dumps({"jsonrpc": "2.0", "id": ids[i], "result": {"for": i, "conn": c, "round": r}}) + "\n").encode())
+
+    async def caller(c, i, client):
+        for r in range(rounds):
+            rs = client.new_request_stream(str(ids[i]))
+            await client.send_json(JSONRPCRequest(id=ids[i], method="tools/call", params={"who": i, "conn": c, "round": r}))
+            try:
+                with _anyio.fail_after(1.0):
+                    m = await rs.receive()
+                results[(c, i)].append(("result", m.model_dump(exclude_none=True)))
+            except TimeoutError:
+                results[(c, i)].append(("timeout", None))
+            except BaseException as e:  # noqa: BLE001
+                results[(c, i)].append(("exc", type(e).__name__))
+
+    async def main():
+        it = iter(procs)
+        with seams.patched_open_process(lambda cmd, kw: next(it)):
+            async with contextlib.AsyncExitStack() as stack:
+                clients = [await stack.enter_async_context(StdioClient(seams.stdio_params())) for _ in range(nc)]
+                start = list(itertools.permutations(range(len(pairs))))[cfg["reg"]]
+                tasks = []
+                for pi in start:
+                    c, i = pairs[pi]
+                    tasks.append(asyncio.ensure_future(caller(c, i, clients[c])))
+                await asyncio.gather(*tasks)
+                for c in range(nc):
+                    read, _ = clients[c].get_streams()
+                    try:
+                        while True:
+                            main_streams[c].append(read.receive_nowait().model_dump(exclude_none=True))
+                    except Exception:  # noqa: BLE001
+                        pass
+
+    loop.idle_hook = idle
+    status, val = loop.run_main(main())
+    errors = loop.collect_errors()
+    loop.abandon()
+    viol: List[dict] = []
+    if status != "ok":
+        return {"outcome": status, "violations": [{"sig": {"class": "did-not-finish", "part": "per-request-multi"},
+                                                   "msg": f"cfg={cfg}: {status} {core.clean_repr(val)}"}]}
+    summary = []
+    for (c, i) in pairs:
+        for r in range(rounds):
+            kind, v = results[(c, i)][r] if r < len(results[(c, i)]) else ("missing", None)
+            summary.append(kind[0])
+            if kind == "result":
+                want = {"for": i, "conn": c, "round": r}
+                if v.get("result") != want or type(v.get("id")) is not type(ids[i]) or v.get("id") != ids[i]:
+                    other_conn = isinstance(v.get("result"), dict) and v["result"].get("conn") != c
+                    viol.append({"sig": {"class": "cross-talk", "part": "per-request", "from": "another-connection" if other_conn else "same-connection",
+                                         "connections": nc},
+                                 "msg": f"cfg={cfg}: caller {i} of connection {c}, round {r} (id {ids[i]!r}) got {v}, expected result {want}"})
+            else:
+                viol.append({"sig": {"class": "lost-response", "part": "per-request", "connections": nc, "round": "first" if r == 0 else "later"},
+                             "msg": f"cfg={cfg}: caller {i} of connection {c}, round {r}, waiting on the request stream for id {ids[i]!r} "
+                                    f"ended with {kind}; main streams saw {[[m.get('result') for m in ms] for ms in main_streams]}"})
+    for c in range(nc):
+        got = [m.get("result") for m in main_streams[c] if "method" not in m]
+        want = [{"for": i, "conn": c, "round": r} for r in range(rounds) for i in range(len(ids))]
+        key = lambda d: json.dumps(d, sort_keys=True)
+        if sorted(map(key, got)) != sorted(map(key, want)):
+            viol.append({"sig": {"class": "main-stream-mismatch", "part": "per-request", "connections": nc},
+                         "msg": f"cfg={cfg}: connection {c}: responses on the main read stream {got}, the child wrote {want}"})
+    if errors:
+        viol.append({"sig": {"class": "loop-error"}, "msg": f"{errors[:2]}"})
+    return {"outcome": "".join(summary), "violations": viol}
+
+
+def multi_configs(tier: str):
+    import math as _m
+
+    out = []
+    idsets = [["str", "digits"], ["zero", "empty"]] if tier == "quick" else [["str", "digits"], ["zero", "empty"], ["int", "neg"], ["str", "int", "empty"]]
+    for idset in idsets:
+        # two connections alive, same ids on both, one round: every caller start order x every answer order
+        if len(idset) == 2:
+            for reg in range(_m.factorial(4)):
+                out.append({"conns": 2, "ids": idset, "rounds": 1, "reg": reg})
+        # one connection, ids reused for 2-3 rounds
+        for rounds in ((2, 3) if len(idset) == 2 else (2,)):
+            for reg in range(_m.factorial(len(idset))):
+                out.append({"conns": 1, "ids": idset, "rounds": rounds, "reg": reg})
+    # two connections and two rounds (start order fixed per parity; answer orders all)
+    for idset in idsets[:1] if tier == "quick" else [i for i in idsets if len(i) == 2]:
+        for reg in (0, 23) if tier == "quick" else range(0, 24, 3):
+            out.append({"conns": 2, "ids": idset, "rounds": 2, "reg": reg})
+    return out
+
+
 def configs_for(tier: str):
     parts = {}
     parts["k2-notes2"] = [
@@ -467,6 +614,11 @@ def run(tier: str, only=None) -> core.Result:
     if not only or "per-request" in only:
         out = explorer.explore(RUN_PR, prcfgs, fidelity=True)
         sched.absorb(res, "per-request-streams", RUN_PR, out, prcfgs, min_outcomes=1)
+    if not only or "per-request" in only:
+        mc = multi_configs(tier)
+        out = explorer.explore(RUN_PRM, mc, fidelity=True)
+        sched.absorb(res, "per-request-streams-two-connections-and-id-reuse", RUN_PRM, out, mc, min_outcomes=1)
+        sched.debug_pass(res, "per-request-streams-two-connections-and-id-reuse", RUN_PRM, mc, every=9)
     res.coverage["exhaustive"] = True
     res.coverage["rule"] = (
         "k concurrent send_message callers (k=2,3; thorough 4) on one stream pair; every order in which the server answers "
@@ -474,7 +626,9 @@ def run(tier: str, only=None) -> core.Result:
         "action from the anchor-relative time menu (now, +1us, just before / on (both tie orders) / just after the next "
         "library timer), equal and unequal per-caller timeouts, simultaneous and staggered starts; auto-generated ids through the same and through cloned "
         "write streams; the same through the real stdio transport (scripted child): every answer order x {all answers in one chunk, "
-        "one chunk per line, chunk boundary mid-line, all answers behind a burst of 150 notifications}"
+        "one chunk per line, chunk boundary mid-line, all answers behind a burst of 150 notifications}; per-request streams: id shapes, "
+        "two connections alive at once whose callers use the same ids (every caller start order x every answer order), and callers "
+        "reusing their id for 2-3 back-to-back rounds (every answer order per round)"
     )
     res.assumptions = [
         "responses are delivered at most once each and only after the environment decided to send them",
